@@ -530,6 +530,41 @@ func (fl *flattener) stmt(s ast.Stmt) ([]ast.Stmt, bool) {
 			return []ast.Stmt{b}, true
 		}
 	case *ast.IfStmt:
+		if x.Init == nil {
+			// `if h(args) { .. }` / `if !h(args) { .. }` with a one-result helper: the result goes through a
+			// synthetic local, the helper's statements come first
+			cond := ast.Unparen(x.Cond)
+			neg := false
+			if u, ok := cond.(*ast.UnaryExpr); ok && u.Op == token.NOT {
+				neg, cond = true, ast.Unparen(u.X)
+			}
+			if c, ok := cond.(*ast.CallExpr); ok {
+				if h := fl.helperOf(c); fl.usable(h) && fl.generalOK(h) && h.Decl.Type.Results != nil && len(h.Decl.Type.Results.List) == 1 && len(h.Decl.Type.Results.List[0].Names) == 0 && len(ownReturns(h)) > 0 {
+					if fl.dry {
+						fl.inlineGeneral(h, c, nil, token.ASSIGN)
+					} else if tv, ok := fl.info.Types[c]; ok && tv.Type != nil {
+						v := types.NewVar(c.Pos(), fl.pkg, "_result_of_"+h.Decl.Name.Name, tv.Type)
+						def := &ast.Ident{Name: v.Name(), NamePos: c.Pos()}
+						fl.info.Defs[def] = v
+						use := &ast.Ident{Name: v.Name(), NamePos: c.Pos()}
+						fl.info.Uses[use] = v
+						fl.info.Types[use] = types.TypeAndValue{Type: tv.Type}
+						pre := fl.inlineGeneral(h, c, []ast.Expr{def}, token.DEFINE)
+						var ncond ast.Expr = use
+						if neg {
+							ncond = &ast.UnaryExpr{OpPos: x.Cond.Pos(), Op: token.NOT, X: use}
+							fl.info.Types[ncond] = types.TypeAndValue{Type: tv.Type}
+						}
+						nif := &ast.IfStmt{If: x.If, Cond: ncond, Body: x.Body, Else: x.Else}
+						rest, ch := fl.stmt(nif)
+						if !ch {
+							rest = []ast.Stmt{nif}
+						}
+						return append(pre, rest...), true
+					}
+				}
+			}
+		}
 		if x.Init != nil {
 			// `if v := h(args); cond { .. }`: inline the init statement in front of the if
 			if pre, ch := fl.stmt(x.Init); ch {
